@@ -147,6 +147,8 @@ class RefDEVS:
         for i, a in enumerate(self.p["roots"]):
             if self._perform(None, i, a) == "fail":
                 break
+        for i, a in enumerate(self.p.get("initial", ())):
+            self._perform("init", i, a)
         self.seq += 1
         key = (self.warmup_time, -MAX_PRIORITY, self.seq, "W")
         if self.warmup_time >= self.clock:
